@@ -2,6 +2,7 @@ import DoltVerif.Lemmas.NbsFiles
 import DoltVerif.Lemmas.NbsFindOffsets
 import DoltVerif.Lemmas.NbsArc
 import DoltVerif.Lemmas.NbsStore
+import DoltVerif.Lemmas.NbsGetMany
 /-!
 C01 — Chunk reads return exactly the bytes stored under that address.
 
@@ -86,6 +87,26 @@ the prefix, and never panics. -/
 theorem archive_findIndex_spec (ar : Arc) (a : Addr) (hwf : AWF ar) :
     (∃ k, findIndex ar a = some (some k) ∧ ARowIs ar k a) ∨
     (findIndex ar a = some none ∧ ∀ k, ¬ ARowIs ar k a) := findIndex_spec ar a hwf
+
+/-- **`getManyCompressed` agrees with `getMany`** on a table file (any index of the written chunks,
+any tie order, compression abstract): for a prefix-sorted request list both succeed, mark the same
+requests found with the same `remaining`, and deliver the same addresses in the same order — `getMany`
+the bytes `d` of a written chunk, `getManyCompressed` exactly `cmp d`; one delivery per newly found
+request (`FoRel`). -/
+theorem getManyCompressed_agrees (c : Codec) (hc : c.Ok) (chunks : List Chunk) (ix : Idx)
+    (hix : IsIndexOf ix (chunks.map (recOf c))) (tail : Bytes) (reqs : List GetRec)
+    (hsorted : reqs.Pairwise (fun x y => x.a.pre ≤ y.a.pre)) :
+    ∃ out recs rem L, FoRel ix reqs out recs ∧
+      tableGetMany c (recordsOf c chunks ++ tail) ix reqs = .ok (out, L, rem) ∧
+      tableGetManyCompressed c (recordsOf c chunks ++ tail) ix reqs = .ok (out, L.map (fun p => (p.1, c.cmp p.2)), rem) ∧
+      (∀ p ∈ L, ∃ ch ∈ chunks, p = (ch.a, ch.data)) ∧ L.map (·.1) = (sortByOff recs).map (·.a) ∧
+      L.length = recs.length ∧ (rem = false → ∀ o ∈ out, o.found = true) := by
+  obtain ⟨out, recs, rem, hf, hrel, hrem, _, hlen, hmem⟩ := findOffsets_spec ix hix.wf hix.sorted reqs hsorted
+  obtain ⟨L, h1, h2, h3, h4⟩ := read_recs c hc chunks ix hix tail (sortByOff recs)
+    (fun r hr => foRel_entries ix _ _ _ hrel r ((hmem r).mp hr))
+  refine ⟨out, recs, rem, L, hrel, by simp [tableGetMany, hf, h1], by simp [tableGetManyCompressed, hf, h2], h4, h3, ?_, hrem⟩
+  have := congrArg List.length h3
+  simpa [hlen] using this
 
 /-! ### Store level (simplified store model, `Model/NbsStore.lean`) -/
 
